@@ -69,7 +69,26 @@ pub(super) fn read_frequencies(src: &mut &[u8]) -> io::Result<Frequencies> {
         prev_sym = sym;
     }
 
+    validate_frequencies(&frequencies)?;
+
     Ok(frequencies)
+}
+
+// The states are stepped using 12 bits for the cumulative frequency, i.e., the frequencies of a
+// table are normalized to add up to at most 4096.
+fn validate_frequencies(frequencies: &Frequencies) -> io::Result<()> {
+    const MAX_TOTAL_FREQUENCY: u32 = 1 << 12;
+
+    let total_frequency: u32 = frequencies.iter().copied().map(u32::from).sum();
+
+    if total_frequency > MAX_TOTAL_FREQUENCY {
+        return Err(io::Error::new(
+            io::ErrorKind::InvalidData,
+            "invalid frequency table",
+        ));
+    }
+
+    Ok(())
 }
 
 pub(super) fn build_cumulative_frequencies(frequencies: &Frequencies) -> CumulativeFrequencies {
@@ -141,6 +160,22 @@ mod tests {
             0xff, // symbol = 255
             0x01, // run length = 1
             0x01, // frequencies[255] = 1
+            0x00, // EOF
+        ];
+
+        assert!(matches!(
+            read_frequencies(&mut &src[..]),
+            Err(e) if e.kind() == io::ErrorKind::InvalidData
+        ));
+    }
+
+    #[test]
+    fn test_read_frequencies_with_invalid_total_frequency() {
+        let src = [
+            b'a', // symbol = 'a'
+            0x90, 0x00, // frequencies['a'] = 4096
+            b'c', // symbol = 'c'
+            0x01, // frequencies['c'] = 1
             0x00, // EOF
         ];
 
